@@ -1,6 +1,8 @@
 (* C16 -- element/attribute read API (partial).  Only statements, `exact` proofs and Print Assumptions. *)
 From LolModel Require Import Machine Selectors Rewriter.
-From LolProofs Require Import TokenLaws.
+From LolProofs Require Import TokenLaws AttrApi.
+From Coq Require Import List.
+Import ListNotations.
 
 Theorem C16_get_after_set : forall t n v t', stt_set_attr t n v = inl t' -> stt_get_attr t' n = Some v.
 Proof. exact get_after_set. Qed.
@@ -12,8 +14,46 @@ Proof. exact set_attr_keeps_others_raw. Qed.
 (* lookups are ASCII case-insensitive on the attribute name *)
 Theorem C16_lookup_is_case_insensitive : forall n, eq_ci (lower_bytes n) (lower_bytes n) = true.
 Proof. exact eq_ci_lower_refl. Qed.
+
+(* get_attribute / has_attribute: the value of the FIRST attribute whose name equals the argument ASCII case-insensitively
+   (duplicates later in the tag are ignored), None iff no attribute has that name -- for every attribute list *)
+Theorem C16_get_attribute_returns_the_first_match :
+  forall t n v, attr_name_check (lower_bytes n) = None ->
+  (stt_get_attr t n = Some v <->
+   exists pre a post, stt_attrs t = pre ++ a :: post /\ Forall (fun x => eq_ignore_case (at_name x) n = false) pre /\
+                      eq_ignore_case (at_name a) n = true /\ at_value a = v).
+Proof. exact get_attribute_returns_the_first_match. Qed.
+Theorem C16_get_attribute_none_iff_no_match :
+  forall t n, attr_name_check (lower_bytes n) = None ->
+  (stt_get_attr t n = None <-> Forall (fun x => eq_ignore_case (at_name x) n = false) (stt_attrs t)).
+Proof. exact get_attribute_none_iff_no_match. Qed.
+(* set_attribute rewrites the first match in place (source order and the other attributes untouched) or appends;
+   remove_attribute deletes every attribute of that name and keeps the order of the rest *)
+Theorem C16_set_attribute_in_place_or_append :
+  forall t n v t', stt_set_attr t n v = inl t' ->
+  (exists pre a post, stt_attrs t = pre ++ a :: post /\ Forall (fun x => eq_ignore_case (at_name x) n = false) pre /\
+                      eq_ignore_case (at_name a) n = true /\ stt_attrs t' = pre ++ mkAt (at_name a) v None None :: post) \/
+  (Forall (fun x => eq_ignore_case (at_name x) n = false) (stt_attrs t) /\ stt_attrs t' = stt_attrs t ++ [mkAt (lower_bytes n) v None None]).
+Proof. exact set_attribute_in_place_or_append. Qed.
+Theorem C16_remove_attribute_filters :
+  forall t n, attr_name_check (lower_bytes n) = None ->
+  stt_attrs (stt_remove_attr t n) = filter (fun a => negb (eq_ignore_case (at_name a) n)) (stt_attrs t).
+Proof. exact remove_attribute_filters. Qed.
+Theorem C16_invalid_attribute_names_are_inert :
+  forall t n v e, attr_name_check (lower_bytes n) = Some e -> stt_get_attr t n = None /\ stt_set_attr t n v = inr e /\ stt_remove_attr t n = t.
+Proof. exact invalid_attribute_names_are_inert. Qed.
+Example C16_first_duplicate_example :
+  let t := mkStT (bs "a") [mkAt (bs "ID") (bs "1") None None; mkAt (bs "x") (bs "") None None; mkAt (bs "id") (bs "2") None None] Html false None None (mkR 0 0) 0%N in
+  stt_get_attr t (bs "iD") = Some (bs "1") /\ stt_get_attr t (bs "X") = Some [] /\ stt_get_attr t (bs "y") = None
+  /\ map at_name (stt_attrs (stt_remove_attr t (bs "Id"))) = [bs "x"].
+Proof. vm_compute. auto. Qed.
 (* NOT proved here: agreement of the attribute outline with the WHATWG attribute grammar for every chunking;
    exercised by correspondence (every getter value) and oracle_c16 (independent reference attribute parser). *)
 Print Assumptions C16_get_after_set.
 Print Assumptions C16_get_after_remove.
 Print Assumptions C16_set_keeps_other_attributes.
+Print Assumptions C16_get_attribute_returns_the_first_match.
+Print Assumptions C16_get_attribute_none_iff_no_match.
+Print Assumptions C16_set_attribute_in_place_or_append.
+Print Assumptions C16_remove_attribute_filters.
+Print Assumptions C16_invalid_attribute_names_are_inert.
